@@ -36,6 +36,10 @@ type shrRun struct {
 }
 
 func (r *shrRun) sds(c, v byte) *v2.SdsConfig {
+	if v == '0' {
+		// no validation secret: the trust anchors are the host's root store (emulated: sysroots.go)
+		return &v2.SdsConfig{CertificateConfig: &v2.SecretConfigWrapper{Name: r.id + "-" + string(c)}}
+	}
 	return &v2.SdsConfig{CertificateConfig: &v2.SecretConfigWrapper{Name: r.id + "-" + string(c)}, ValidationConfig: &v2.SecretConfigWrapper{Name: r.id + "-" + string(v)}}
 }
 
@@ -148,6 +152,14 @@ func (r *shrRun) shake(l *loop, sni string, protos []string, pk string, v12 bool
 func runShr(c *hx.Ctx, l *loop, cls string, ops []string, v12 bool) {
 	sdsInit()
 	peersInit()
+	if _, ok := peerCerts["sys"]; !ok {
+		// a client certificate of the authority that IS the process's system root store
+		if msg := sysStoreCheck(otherCA); msg != "" {
+			panic("c13 shr: system root store emulation not in force: " + msg)
+		}
+		sc := leaf(sysCA, "client.sys", []string{"client.sys"}, false)
+		peerCerts["sys"] = &gotls.Certificate{Certificate: [][]byte{sc.der}, PrivateKey: sc.key}
+	}
 	shrSeq++
 	r := &shrRun{id: fmt.Sprintf("shr%d", shrSeq), certs: map[string]*leafCert{}, mngs: map[byte]types.TLSContextManager{}}
 	r.static = leaf(rightCA, "static"+shrDom, []string{"static" + shrDom}, false)
@@ -223,11 +235,21 @@ func shrClass(ctxs []string) string {
 			fl = append(fl, x.n)
 		}
 	}
-	if len(fl) == 0 {
-		return "single"
+	noval := ""
+	for _, x := range s {
+		if x[1] == '0' {
+			noval = "+noval"
+			break
+		}
 	}
-	return strings.Join(fl, "+")
+	if len(fl) == 0 {
+		return "single" + noval
+	}
+	return strings.Join(fl, "+") + noval
 }
+
+var shrSysProbes = []string{"Ha0.none", "Ha0.sys", "Ha0.right", "Ha0.self", "Ha0.other", "Hb0.none", "Hb0.sys", "Hb0.right", "Hb0.self", "Hc0.none", "Hc0.sys", "Hc0.right", "Hc0.other",
+	"Hn0.none", "Hnh.right", "Hnh.sys", "Da0", "Db0", "Dc0", "Dnh"}
 
 var shrProbes = []string{"Da0", "Db0", "Dc0", "Dn0", "Dnh", "Dnt", "Dx0", "Dy0", "Ds0", "D00", "Ha0.none", "Hb0.none", "Ha0.right", "Hn0.none", "Hc0.other", "Hnh.none", "Hx0.none"}
 
@@ -244,6 +266,10 @@ func runShrFixed(c *hx.Ctx, l *loop) {
 		{"BL:xp11a0;xq00bh", "Vp", "Vq", "Kx1"},
 		{"BL:xp11a0;yp00bh", "Vp", "Kx1", "Ky1"},
 		{"BL:xp11a0;yq00bh", "Vp", "Vq", "Kx1", "Ky1"},
+		// sds contexts WITHOUT a validation secret (host root store), every flag combination, next to one with a validation secret
+		{"BL:x011a0;x010b0;x001c0;x0000h", "Kx1"},
+		{"Kx9", "Wx0", "Kx1", "BL:x011a0;xp11b0;x010ch", "Vp"},
+		{"BL:y011at;xp11b0;y010c0", "Vp", "Kx1", "Ky1"},
 		// a second listener and a cluster naming the same secrets
 		{"BL:xp11a0;xp00bh", "Vp", "Kx1", "BO:xp01c0;xp10a0", "Wxp"},
 	}
@@ -251,6 +277,9 @@ func runShrFixed(c *hx.Ctx, l *loop) {
 		for _, v12 := range []bool{false, true} {
 			ops := append([]string{}, h...)
 			ops = append(ops, shrProbes...)
+			if strings.Contains(strings.Join(h, "|"), "011") {
+				ops = append(ops, shrSysProbes...)
+			}
 			// an update that swaps the policies, a rotation, an update that drops / adds a context
 			ops = append(ops, "BL:xp00ah;xp11b0")
 			ops = append(ops, shrProbes...)
@@ -276,7 +305,7 @@ func (g *gen) shrCtx(prev string) string {
 	if g.r.Chance(12) {
 		return "-"
 	}
-	cert, val := "xy"[g.r.Intn(2)], "pq"[g.r.Intn(2)]
+	cert, val := "xy"[g.r.Intn(2)], "pq0"[g.r.Intn(3)]
 	if prev != "" && prev != "-" && g.r.Chance(60) {
 		cert, val = prev[0], prev[1]
 	}
@@ -297,13 +326,15 @@ func (g *gen) shrCtxs() []string {
 	return cs
 }
 
+var shrPeers = []string{"none", "none", "self", "other", "right", "right", "sys", "sys", "expired", "stolen"}
+
 func (g *gen) shrProbe() string {
 	sni := "aabbccnnxys0"[g.r.Intn(12)]
 	al := "000htb"[g.r.Intn(6)]
 	if g.r.Chance(75) {
 		return fmt.Sprintf("D%c%c", sni, al)
 	}
-	return fmt.Sprintf("H%c%c.%s", sni, al, g.r.PickS(peerKinds))
+	return fmt.Sprintf("H%c%c.%s", sni, al, g.r.PickS(shrPeers))
 }
 
 // shrMutate: a listener update — flip one policy field, swap two contexts, drop / add a context, rename a secret.
@@ -333,7 +364,11 @@ func (g *gen) shrMutate(cs []string) []string {
 		out = append(out, g.shrCtx(out[len(out)-1]))
 	case out[i] != "-":
 		b := []byte(out[i])
-		b[g.r.Intn(2)] ^= 1 // x<->y / p<->q
+		if i := g.r.Intn(2); i == 1 && (b[1] == '0' || g.r.Chance(30)) {
+			b[1] = map[byte]byte{'0': 'p', 'p': '0', 'q': '0'}[b[1]] // gains / loses its validation secret
+		} else {
+			b[i] ^= 1 // x<->y / p<->q
+		}
 		out[i] = string(b)
 	}
 	return out
@@ -383,7 +418,7 @@ func runShrRandom(c *hx.Ctx, g *gen, l *loop) {
 		case x < 40:
 			ops = append(ops, "BO:"+strings.Join(g.shrCtxs(), ";"), g.shrProbe())
 		case x < 46:
-			ops = append(ops, fmt.Sprintf("W%c%c", "xy"[g.r.Intn(2)], "pq"[g.r.Intn(2)]))
+			ops = append(ops, fmt.Sprintf("W%c%c", "xy"[g.r.Intn(2)], "pq0"[g.r.Intn(3)]))
 		case x < 56:
 			ops = append(ops, fmt.Sprintf("V%c", "pq"[g.r.Intn(2)]))
 		case x < 70:
@@ -397,6 +432,10 @@ func runShrRandom(c *hx.Ctx, g *gen, l *loop) {
 	for _, x := range cs {
 		if x != "-" && x[4] != '0' {
 			ops = append(ops, fmt.Sprintf("D%c0", x[4]), fmt.Sprintf("H%c0.none", x[4]))
+			if x[1] == '0' {
+				ops = append(ops, fmt.Sprintf("H%c0.%s", x[4], g.r.PickS([]string{"sys", "right", "self", "other"})))
+				c.Count(fmt.Sprintf("shr.novalidation.verify=%c.require=%c", x[2], x[3]))
+			}
 		}
 	}
 	ops = append(ops, g.shrProbe())
